@@ -140,6 +140,7 @@ class C02Gen(langgen.Gen):
                  '%s get "{%s}"' % (n, n), "%s get %s add %s" % (n, n, self.sx()), "%s get (%s add \"\").trim()" % (n, n)]
         for _ in range(self.r.randint(1, 3)):
             lines.append(pad + self.r.choice(forms))
+        lines.append("%s%s get %s.slice(0, 300)" % (pad, n, n))      # keep repeated doubling bounded
         lines.append("%sshout(%s)" % (pad, n))
         return lines
 
@@ -165,6 +166,7 @@ class C02Gen(langgen.Gen):
             if u.startswith("make "):
                 self.declare(u.split()[1], STR)
             lines.append(pad + u)
+        lines.append("%s%s get %s.slice(0, 300)" % (pad, x.name, x.name))
         lines.append("%sshout(%s)" % (pad, x.name))
         return lines
 
@@ -288,7 +290,7 @@ class C02Gen(langgen.Gen):
         y = self.fresh("y")
         lines += ["%s%s get %s" % (pad, x.name, self.sx()), '%sshout("<{%s}>")' % (pad, x.name),
                   '%smake %s get "{%s}{%s}"' % (pad, y, x.name, x.name), '%s%s get "{%s}-{%s}"' % (pad, x.name, y, x.name),
-                  "%sshout(%s)" % (pad, x.name)]
+                  "%s%s get %s.slice(0, 300)" % (pad, x.name, x.name), "%sshout(%s)" % (pad, x.name)]
         self.declare(y, STR)
         return lines
 
@@ -427,3 +429,725 @@ def gen_program(rng, tier):
     g = C02Gen(rng, opts)
     src = g.program()
     return src, g.stats, g.tstats
+
+
+# =====================================================================================
+# Shapes: tiny structured programs that are compiled BOTH to NaijaScript source and to the
+# op sequence the evaluator induces on the storage model (loops unrolled, calls inlined; all
+# control flow is static), so `nsverif lang` (implementation) and `nsmodel mem` (Mem.run /
+# Mem.arun) can be compared value by value.
+
+def f64_bits(x):
+    import struct
+    return "%016x" % struct.unpack(">Q", struct.pack(">d", float(x)))[0]
+
+
+def hx(b):
+    return b.hex() if b else "-"
+
+
+class Shape:
+    """Compiles a statement list (nested tuples, see `gen_shape`) to source text and ops."""
+
+    def __init__(self):
+        self.ids = {}
+        self.ops = []
+        self.fns = {}          # name -> (params, body)
+        self.env = {}          # loop counters: name -> int (static values)
+
+    def vid(self, name):
+        return self.ids.setdefault(name, len(self.ids))
+
+    # ---------------- source text
+    def src_expr(self, e):
+        k = e[0]
+        if k == "lit":
+            return '"%s"' % e[1]
+        if k == "num":
+            return str(e[1])
+        if k == "var":
+            return e[1]
+        if k == "cat":
+            return "(%s add %s)" % (self.src_expr(e[1]), self.src_expr(e[2]))
+        if k == "str":            # to_string(counter)
+            return "to_string(%s)" % e[1]
+        if k == "interp":
+            return '"{%s}"' % e[1]
+        if k == "arr":
+            return "[%s]" % ", ".join(self.src_expr(x) for x in e[1])
+        if k == "idx":
+            return "%s[%d]" % (self.src_expr(e[1]), e[2])
+        if k == "call":
+            return "%s(%s)" % (e[1], ", ".join(self.src_expr(x) for x in e[2]))
+        if k == "pop":
+            return "%s%s.pop()" % (e[1], "".join("[%d]" % i for i in e[2]))
+        raise ValueError(k)
+
+    def src_stmts(self, stmts, ind=0):
+        pad = "  " * ind
+        out = []
+        for s in stmts:
+            k = s[0]
+            if k == "make":
+                out.append("%smake %s get %s" % (pad, s[1], self.src_expr(s[2])))
+            elif k == "set":
+                out.append("%s%s get %s" % (pad, s[1], self.src_expr(s[2])))
+            elif k == "setidx":
+                out.append("%s%s%s get %s" % (pad, s[1], "".join("[%d]" % i for i in s[2]), self.src_expr(s[3])))
+            elif k == "push":
+                out.append("%s%s%s.push(%s)" % (pad, s[1], "".join("[%d]" % i for i in s[2]), self.src_expr(s[3])))
+            elif k == "shout":
+                out.append("%sshout(%s)" % (pad, self.src_expr(s[1])))
+            elif k == "expr":
+                out.append("%s%s" % (pad, self.src_expr(s[1])))
+            elif k == "block":
+                out += ["%sstart" % pad] + self.src_stmts(s[1], ind + 1) + ["%send" % pad]
+            elif k == "loop":
+                i, n = s[1], s[2]
+                out += ["%smake %s get 0" % (pad, i), "%sjasi (%s small pass %d) start" % (pad, i, n)]
+                out += self.src_stmts(s[3], ind + 1)
+                out += ["%s  %s get %s add 1" % (pad, i, i), "%send" % pad]
+            elif k == "ifeq":      # if to say (i na k) start ... end
+                out += ["%sif to say (%s na %d) start" % (pad, s[1], s[2])] + self.src_stmts(s[3], ind + 1) + ["%send" % pad]
+            elif k == "return":
+                out.append("%sreturn %s" % (pad, self.src_expr(s[1])))
+            elif k == "fn":
+                out += ["%sdo %s(%s) start" % (pad, s[1], ", ".join(s[2]))] + self.src_stmts(s[3], ind + 1) + ["%send" % pad]
+            else:
+                raise ValueError(k)
+        return out
+
+    # ---------------- op trace
+    def emit(self, *ws):
+        self.ops.append(" ".join(str(w) for w in ws))
+
+    def scalar_read(self, name):
+        """reading a counter: a copy of a number (no storage), dropped by its consumer"""
+        self.emit("read", self.vid(name))
+
+    def ops_expr(self, e):
+        k = e[0]
+        if k == "lit":
+            self.emit("lit", hx(e[1].encode()))
+        elif k == "num":
+            self.emit("num", f64_bits(e[1]))
+        elif k == "var":
+            self.emit("read", self.vid(e[1]))
+        elif k == "cat":
+            self.ops_expr(e[1])
+            self.ops_expr(e[2])
+            self.emit("concat")
+        elif k == "str":
+            # to_string(i): the counter is read (a number), then a fresh frame string is built
+            self.scalar_read(e[1])
+            self.emit("drop")
+            self.emit("lit", hx(str(self.env[e[1]]).encode()))
+            self.emit("lit", "-")
+            self.emit("concat")
+        elif k == "interp":
+            self.emit("interp", self.vid(e[1]))
+        elif k == "arr":
+            for x in e[1]:
+                self.ops_expr(x)
+            self.emit("mkarr", len(e[1]))
+        elif k == "idx":
+            self.ops_expr(e[1])
+            self.emit("num", f64_bits(e[2]))
+            self.emit("drop")
+            self.emit("index", e[2])
+        elif k == "pop":
+            for i in e[2]:
+                self.emit("num", f64_bits(i))
+                self.emit("drop")
+            self.emit("pop", self.vid(e[1]), *e[2])
+        elif k == "call":
+            params, body = self.fns[e[1]]
+            self.emit("callbegin")
+            for x in e[2]:
+                self.ops_expr(x)
+            self.emit("callbind", *[self.vid(p) for p in params])
+            self.emit("pushscope")
+            ret = self.ops_stmts(body, depth=[("fn",)])
+            if ret is None:
+                self.emit("popscope")
+            self.emit("callend")
+        else:
+            raise ValueError(k)
+
+    def ops_stmts(self, stmts, depth):
+        """returns 'ret' when a return was executed (the unwinding ops are already emitted)"""
+        for s in stmts:
+            k = s[0]
+            if k == "make":
+                self.ops_expr(s[2])
+                self.emit("make", self.vid(s[1]))
+            elif k == "set":
+                self.ops_expr(s[2])
+                self.emit("assign", self.vid(s[1]))
+            elif k == "setidx":
+                self.ops_expr(s[3])
+                for i in s[2]:
+                    self.emit("num", f64_bits(i))
+                    self.emit("drop")
+                self.emit("storeidx", self.vid(s[1]), s[2][-1], *s[2][:-1])
+            elif k == "push":
+                self.ops_expr(s[3])
+                self.emit("promote")
+                for i in s[2]:
+                    self.emit("num", f64_bits(i))
+                    self.emit("drop")
+                self.emit("push", self.vid(s[1]), *s[2])
+            elif k == "shout":
+                self.ops_expr(s[1])
+                self.emit("shout")
+            elif k == "expr":
+                self.ops_expr(s[1])
+                self.emit("drop")
+            elif k == "block":
+                self.emit("pushscope")
+                r = self.ops_stmts(s[1], depth + [("block",)])
+                if r:
+                    return r
+                self.emit("popscope")
+            elif k == "loop":
+                i, n = s[1], s[2]
+                self.emit("num", f64_bits(0))
+                self.emit("make", self.vid(i))
+                self.env[i] = 0
+                while True:
+                    # condition: i small pass n
+                    self.scalar_read(i)
+                    self.emit("num", f64_bits(n))
+                    self.emit("drop")
+                    self.emit("drop")
+                    if not self.env[i] < n:
+                        break
+                    self.emit("loopiter")
+                    self.emit("pushscope")
+                    r = self.ops_stmts(s[3], depth + [("loop",), ("block",)])
+                    if r:
+                        return r
+                    # i get i add 1
+                    self.scalar_read(i)
+                    self.emit("num", f64_bits(1))
+                    self.emit("drop")
+                    self.emit("drop")
+                    self.env[i] += 1
+                    self.emit("num", f64_bits(self.env[i]))
+                    self.emit("assign", self.vid(i))
+                    self.emit("popscope")
+                    self.emit("loopiterend")
+            elif k == "ifeq":
+                self.scalar_read(s[1])
+                self.emit("num", f64_bits(s[2]))
+                self.emit("drop")
+                self.emit("drop")
+                if self.env[s[1]] == s[2]:
+                    self.emit("pushscope")
+                    r = self.ops_stmts(s[3], depth + [("block",)])
+                    if r:
+                        return r
+                    self.emit("popscope")
+            elif k == "return":
+                self.ops_expr(s[1])
+                # unwind to the function body: blocks pop their scope, loops are left without a reset
+                for d in reversed(depth):
+                    if d[0] == "block":
+                        self.emit("popscope")
+                    elif d[0] == "loop":
+                        self.emit("loopexit")
+                    elif d[0] == "fn":
+                        self.emit("popscope")
+                        break
+                return "ret"
+            elif k == "fn":
+                self.fns[s[1]] = (s[2], s[3])
+            else:
+                raise ValueError(k)
+        return None
+
+    def compile(self, stmts):
+        # functions are hoisted per block: register the top-level ones first
+        for s in stmts:
+            if s[0] == "fn":
+                self.fns[s[1]] = (s[2], s[3])
+        src = "\n".join(self.src_stmts(stmts)) + "\n"
+        # run_inner pushes the root scope, exec_block_with_flow(root) another one
+        self.emit("pushscope")
+        self.ops_stmts(stmts, depth=[("block",)])
+        self.emit("popscope")
+        return src, list(self.ops)
+
+
+def gen_shape(r):
+    """A random statically-controlled program over strings and arrays of strings."""
+    n = [0]
+
+    def fresh(p):
+        n[0] += 1
+        return "%s%d" % (p, n[0])
+
+    svars, avars = [], []        # visible string variables / arrays (name, depth, minlen)
+    counters = []
+    fns = []                     # (name, kind)
+    stmts = []
+
+    def text():
+        return sized(r, r.choice([1, 2, 3, 7, 8, 9, 16, 17, 128, 129, 256, 257])).replace("é", "e")
+
+    def sexpr(d=0, allow_call=True):
+        k = r.random()
+        if svars and k < 0.35:
+            return ("var", r.choice(svars))
+        if k < 0.5 or d > 2:
+            return ("lit", text())
+        if k < 0.75:
+            return ("cat", sexpr(d + 1, allow_call), sexpr(d + 1, allow_call))
+        if counters and k < 0.82:
+            return ("cat", ("lit", text()), ("str", r.choice(counters)))
+        if svars and k < 0.87:
+            return ("interp", r.choice(svars))
+        cands = [a for a in avars if a[1] == 1 and a[2] > 0]
+        if cands and k < 0.93:
+            a = r.choice(cands)
+            return ("idx", ("var", a[0]), r.randrange(a[2]))
+        sf = [f for f in fns if f[1] in ("id", "loc", "cat2", "lit", "looped", "elem")]
+        if allow_call and sf:
+            f = r.choice(sf)
+            if f[1] in ("id", "loc", "looped"):
+                return ("call", f[0], [sexpr(d + 1, False)])
+            if f[1] == "cat2":
+                return ("call", f[0], [sexpr(d + 1, False), sexpr(d + 1, False)])
+            if f[1] == "elem":
+                return ("call", f[0], [("arr", [sexpr(d + 1, False), ("lit", text())])])
+            return ("call", f[0], [])
+        return ("lit", text())
+
+    def def_fn():
+        kind = r.choice(["id", "loc", "cat2", "lit", "looped", "elem", "grow", "reassign"])
+        f = fresh("f")
+        if kind == "id":
+            stmts.append(("fn", f, ["p"], [("return", ("var", "p"))]))
+        elif kind == "loc":
+            stmts.append(("fn", f, ["p"], [("make", "s", ("cat", ("var", "p"), ("lit", text()))), ("return", ("var", "s"))]))
+        elif kind == "cat2":
+            stmts.append(("fn", f, ["p", "q"], [("set", "p", ("cat", ("var", "q"), ("var", "p"))), ("return", ("cat", ("var", "p"), ("var", "q")))]))
+        elif kind == "lit":
+            stmts.append(("fn", f, [], [("return", ("lit", text()))]))
+        elif kind == "looped":
+            c = fresh("j")
+            stmts.append(("fn", f, ["p"], [("loop", c, r.randint(1, 3), [
+                ("set", "p", ("cat", ("var", "p"), ("str", c))),
+                ("ifeq", c, r.randint(0, 2), [("return", ("cat", ("var", "p"), ("lit", "!")))])]),
+                ("return", ("var", "p"))]))
+        elif kind == "elem":
+            stmts.append(("fn", f, ["a"], [("return", ("idx", ("var", "a"), 0))]))
+        elif kind == "grow":
+            c = fresh("j")
+            stmts.append(("fn", f, ["a"], [("loop", c, r.randint(1, 4), [("push", "a", [], ("cat", ("lit", text()), ("str", c)))]),
+                                            ("return", ("var", "a"))]))
+        else:
+            if not svars:
+                return
+            x = r.choice(svars)
+            stmts.append(("fn", f, [], [("set", x, ("cat", ("lit", text()), ("lit", text()))), ("return", ("lit", "!"))]))
+            fns.append((f, "reassign", x))
+            return
+        fns.append((f, kind))
+
+    def stmt(depth, inloop):
+        k = r.random()
+        if k < 0.18:
+            x = fresh("s")
+            e = sexpr()
+            svars.append(x)
+            return [("make", x, e)]
+        if k < 0.34 and svars:
+            x = r.choice(svars)
+            return [("set", x, r.choice([("var", x), ("cat", ("var", x), sexpr(1)), sexpr()]))]
+        if k < 0.44:
+            a = fresh("a")
+            m = r.randint(1, 3)
+            els = [sexpr(1) for _ in range(m)]
+            avars.append((a, 1, m))
+            return [("make", a, ("arr", els))]
+        if k < 0.52 and avars:
+            a = r.choice([v for v in avars if v[1] == 1])
+            e = sexpr(1)
+            i = avars.index(a)
+            avars[i] = (a[0], 1, a[2] + (0 if inloop else 1))
+            return [("push", a[0], [], e)]
+        if k < 0.58 and [v for v in avars if v[1] == 1 and v[2] > 0]:
+            a = r.choice([v for v in avars if v[1] == 1 and v[2] > 0])
+            return [("setidx", a[0], [r.randrange(a[2])], sexpr(1))]
+        if k < 0.63 and [v for v in avars if v[1] == 1 and v[2] > 1] and not inloop:
+            a = r.choice([v for v in avars if v[1] == 1 and v[2] > 1])
+            i = avars.index(a)
+            avars[i] = (a[0], 1, a[2] - 1)
+            x = fresh("s")
+            svars.append(x)
+            return [("make", x, ("pop", a[0], []))]
+        if k < 0.75:
+            return [("shout", r.choice([sexpr()] + ([("var", r.choice(avars)[0])] if avars else [])))]
+        if k < 0.83 and depth < 2 and not inloop:
+            c = fresh("i")
+            counters.append(c)
+            mark_s, mark_a = len(svars), len(avars)
+            body = []
+            for _ in range(r.randint(1, 3)):
+                body += stmt(depth + 1, True)
+            del svars[mark_s:]
+            # arrays declared in the body go out of scope; pushes inside a loop change lengths: keep the
+            # static bookkeeping conservative (no index reads into arrays grown in the loop are generated)
+            del avars[mark_a:]
+            counters.remove(c)
+            return [("loop", c, r.randint(1, 4), body)]
+        if k < 0.88 and depth < 2:
+            mark_s, mark_a = len(svars), len(avars)
+            body = []
+            for _ in range(r.randint(1, 3)):
+                body += stmt(depth + 1, inloop)
+            del svars[mark_s:]
+            del avars[mark_a:]
+            return [("block", body)]
+        gf = [f for f in fns if f[1] == "grow"]
+        if k < 0.93 and gf:
+            f = r.choice(gf)
+            return [("shout", ("call", f[0], [("arr", [sexpr(1)])]))]
+        rf = [f for f in fns if f[1] == "reassign" and f[2] in svars]
+        if rf:
+            f = r.choice(rf)
+            return [("shout", ("cat", ("var", f[2]), ("call", f[0], [])))]
+        return [("shout", sexpr())]
+
+    for _ in range(r.randint(1, 3)):
+        def_fn()
+    for _ in range(r.randint(3, 9)):
+        if r.random() < 0.15:
+            def_fn()
+        stmts += stmt(0, False)
+    for x in svars[:3]:
+        stmts.append(("shout", ("var", x)))
+    for a in avars[:2]:
+        stmts.append(("shout", ("var", a[0])))
+    return stmts
+
+
+# hand-written witnesses (the defect classes of DESIGN.md §7 rows 2-5 and 26ade90): the model's variant
+# configurations must see them, the repaired configuration and the implementation must not
+WITNESS_SHAPES = {
+    "selfassign": ([("make", "x", ("cat", ("lit", "aa"), ("lit", "bb"))), ("set", "x", ("var", "x")), ("shout", ("var", "x"))], "alias"),
+    "stale_operand": ([("make", "x", ("cat", ("lit", "aa"), ("lit", "bb"))),
+                       ("fn", "f", [], [("set", "x", ("cat", ("lit", "cc"), ("lit", "dd"))), ("return", ("lit", "!"))]),
+                       ("shout", ("cat", ("var", "x"), ("call", "f", [])))], "alias"),
+    "returned_local": ([("fn", "g", [], [("make", "s", ("cat", ("lit", "he"), ("lit", "llo"))), ("return", ("var", "s"))]),
+                        ("shout", ("call", "g", []))], "alias"),
+    "returned_param": ([("fn", "f", ["p"], [("return", ("var", "p"))]), ("make", "s", ("cat", ("lit", "ab"), ("lit", "cd"))),
+                        ("shout", ("call", "f", [("var", "s")])), ("shout", ("var", "s"))], "alias"),
+    "param_array_loop": ([("fn", "f", ["p"], [("loop", "i", 3, [("push", "p", [], ("cat", ("lit", "e"), ("str", "i")))]), ("return", ("var", "p"))]),
+                          ("shout", ("call", "f", [("arr", [("lit", "q")])]))], "noparam"),
+    "no_staging": ([("fn", "g", [], [("return", ("cat", ("lit", "he"), ("lit", "llo")))]), ("shout", ("call", "g", []))], "nostage"),
+}
+
+
+def run_mem_model(env, name, cases):
+    """cases: [(id, ops)] -> {id: {"mem": {cfg: (verdict, values)}, "ref": (verdict, values)}}"""
+    inp = os.path.join(env.work, name + ".mem.in")
+    outp = os.path.join(env.work, name + ".mem.out")
+    with open(inp, "w") as f:
+        for cid, ops in cases:
+            f.write("case %s\n%s\nend\n" % (cid, "\n".join(ops)))
+    if os.path.exists(outp):
+        os.remove(outp)
+    rc, out = common.sh([common.NSMODEL, "mem", inp, outp], timeout=900)
+    if rc != 0:
+        raise RuntimeError("nsmodel mem failed: %s" % out[-500:])
+    res = {}
+    cur = None
+    for l in open(outp).read().splitlines():
+        if l.startswith("case "):
+            cur = {"mem": {}, "ref": None}
+            res[l[5:]] = cur
+        elif l.startswith("mem "):
+            _, cfg, rest = l.split(" ", 2)
+            v, _, vals = rest.partition(" |")
+            cur["mem"][cfg] = (v.strip(), vals.strip())
+        elif l.startswith("ref "):
+            v, _, vals = l[4:].partition(" |")
+            cur["ref"] = (v.strip(), vals.strip())
+    return res
+
+
+def run_counters(env, name, cases, cfgs=("nf",)):
+    """-> {id: {cfg: (resets, returns, promotions, ending, values)}} (programs must not crash natively)"""
+    inp = os.path.join(env.work, name + ".ctr.in")
+    outp = os.path.join(env.work, name + ".ctr.out")
+    langrun.write_cases(inp, cases)
+    if os.path.exists(outp):
+        os.remove(outp)
+    rc, out = common.sh([common.harness_bin(False), "mem", inp, outp, ",".join(cfgs)], timeout=900)
+    res = {}
+    if os.path.exists(outp):
+        for l in open(outp, encoding="utf-8", errors="replace").read().splitlines():
+            if l.startswith("ctr "):
+                head, _, vals = l.partition(" |")
+                w = head.split()
+                res.setdefault(w[1], {})[w[2]] = (int(w[3]), int(w[4]), int(w[5]), w[6], vals.strip())
+    return res, rc
+
+
+# ---- fixed corpus: every defect class seen so far (all repaired in /repo; they stay here so that a
+# regression is reported again under the same key) plus the hand probes of the review
+CORPUS = [
+    ("owned-string-alias", 'make x get "a" add "b"\nx get x\nshout(x)\n'),
+    ("owned-string-alias", 'do g() start make s get "he" add "llo" return s end\nshout(g())\n'),
+    ("owned-string-alias", 'make x get "aa" add "bb"\ndo f() start x get "cc" add "dd" return "!" end\nshout(x add f())\nshout(x)\n'),
+    ("owned-string-alias", 'do f(p) start return p end\nmake s get "ab" add "cd"\nshout(f(s))\nshout(f("lit"))\nshout(s)\n'),
+    ("param-array-in-frame", 'do f(p) start\n  make i get 0\n  jasi (i small pass 3) start\n    p.push(i)\n    i get i add 1\n  end\n  return p\nend\nshout(f([7]))\n'),
+    ("param-array-in-frame", 'do f(a) start make i get 0 jasi (i small pass 9) start i get i add 1 a.push(i) make t get [i, i, i, i, i, i, i, i] end shout(a) return 0 end shout(f([1]))\n'),
+    ("param-array-in-frame", 'do f(a) start make i get 0 jasi (i small pass 40) start i get i add 1 a.push("s{i}") make t get "x" add "yyyyyyyyyyyyyyyyyyyyyyyyyyyyyy" end return a end shout(f([1]))\n'),
+    ("param-array-in-frame", 'do f(p) start\n  do g() start\n    p.push("x" add "y")\n  end\n  g()\n  g()\n  return p\nend\nshout(f(["q"]))\n'),
+    ("param-array-in-frame", 'do f(p) start\n  make i get 0\n  jasi (i small pass 2) start\n    p[0].push(i)\n    i get i add 1\n  end\n  return p\nend\nshout(f([[1]]))\n'),
+    ("param-array-in-frame", 'do f(a, n) start\n  make i get 0\n  jasi (i small pass 3) start\n    a.push(to_string(n) add "-" add to_string(i))\n    i get i add 1\n  end\n  if to say (n small pass 1) start return a end\n  return f(a, n minus 1)\nend\nshout(f(["r"], 4))\n'),
+    ("param-array-in-frame", 'do f(a) start\n  make i get 0\n  jasi (i small pass 3) start\n    make e get a.pop()\n    a.push(e add "!")\n    a.push(e)\n    i get i add 1\n  end\n  return a\nend\nshout(f(["u" add "v"]))\n'),
+    ("probe-index-swap-loop", 'make a get ["a" add "b", "c" add "d"]\nmake i get 0\njasi (i small pass 3) start\n  a[0] get a[1] add "x"\n  a[1] get a[0] add "y"\n  i get i add 1\nend\nshout(a)\n'),
+    ("probe-pop-reuse", 'make a get []\nmake i get 0\njasi (i small pass 20) start\n  a.push("s" add to_string(i))\n  i get i add 1\nend\njasi (a.len() pass 10) start\n  shout(a.pop())\nend\nmake b get a.pop()\na.push("zz" add b)\nshout(a)\nshout(b)\n'),
+    ("probe-deep-recursion", 'do mk(n) start\n  if to say (n small pass 1) start return "" end\n  return "ab" add mk(n minus 1)\nend\nshout(mk(30))\nmake x get mk(5)\nx get mk(3) add x\nshout(x)\n'),
+    ("probe-array-result", 'do arr(n) start\n  make r get []\n  make i get 0\n  jasi (i small pass n) start\n    r.push("e" add to_string(i))\n    i get i add 1\n  end\n  return r\nend\nmake q get arr(5)\nshout(q)\nshout(arr(3)[1])\nq[0] get arr(2)[1]\nshout(q)\n'),
+    ("probe-swap-vars", 'make x get "a" add "b"\nmake y get x\nx get y add x\ny get x add y\nshout(x) shout(y)\nshout("{x}-{y}")\n'),
+    ("probe-param-strings", 'do f(p, q) start\n  p get q add p\n  q get p add q\n  return p add q\nend\nmake s get "12345678"\nshout(f(s, s))\nshout(f("lit", s))\nshout(s)\n'),
+    ("probe-param-elem-assign", 'do f(p) start\n  p[0] get "x" add "y"\n  return p[0]\nend\nmake a get ["q" add "r"]\nshout(f(a))\nshout(a)\n'),
+    ("probe-return-in-loop", 'do f(n) start\n make acc get ""\n make i get 0\n jasi (true) start\n  acc get acc add "ab"\n  if to say (i pass n) start return acc add "!" end\n  i get i add 1\n end\n return "never"\nend\nshout(f(3))\nshout(f(0) add f(2))\n'),
+    ("probe-break-next", 'make out get []\nmake i get 0\njasi (i small pass 6) start\n i get i add 1\n make t get "t" add to_string(i)\n if to say (i na 2) start next end\n if to say (i na 5) start comot end\n out.push(t add t)\nend\nshout(out)\n'),
+    ("probe-fn-in-loop", 'make i get 0\nmake acc get "z"\njasi (i small pass 3) start\n do g(s) start acc get acc add s return acc end\n shout(g("k" add to_string(i)))\n i get i add 1\nend\nshout(acc)\n'),
+    ("probe-nested-arrays", 'do wrap(x) start return [x, [x add "!", [x]]] end\nmake store get []\nmake i get 0\njasi (i small pass 4) start\n store.push(wrap("v" add to_string(i)))\n i get i add 1\nend\nshout(store)\nstore[1][1][1][0] get store[2][0] add store[3][1][0]\nshout(store[1])\nmake pp get store.pop()\nshout(pp[1][1][0])\nshout(store.len())\n'),
+    ("probe-over-256", 'make b get "%s" add "x"\nmake c get b add b\ndo id(q) start return q end\nshout(id(c).len())\nc get id(b)\nshout(c.len())\nb get "s"\nshout(c.slice(298,301))\n' % ("q" * 299)),
+]
+
+
+def classify(src):
+    """stable key of a failing program (after shrinking)"""
+    for m in re.finditer(r"do\s+\w+\(([^)]*)\)\s+start", src):
+        for p in [x.strip() for x in m.group(1).split(",") if x.strip()]:
+            if re.search(r"\b%s(\[[^\]]*\])*\.(push|pop)\(" % re.escape(p), src):
+                return "param-array-in-frame"
+    return "nf-differs:" + common.chash(src)
+
+
+def oracle(rec):
+    """-> list of (kind, detail) failures of the property on one implementation record"""
+    bad = []
+    for a, b in (("nf", "nn"), ("pf", "pn")):
+        if a not in rec["runs"] or b not in rec["runs"]:
+            continue
+        ea, eb = langrun.ending_class(rec["runs"][a][0]), langrun.ending_class(rec["runs"][b][0])
+        if eb in ("panic", "crash"):
+            continue        # the frame-less run itself dies: not a reclamation question (C06/C08)
+        sb = langcheck.same_behaviour(rec, a, b)
+        if sb is False:
+            bad.append((a, {"with_frame": (langrun.panic_text(rec["runs"][a][0])[:200], rec["runs"][a][1][:300]),
+                            "without": (rec["runs"][b][0][:80], rec["runs"][b][1][:300])}))
+    return bad
+
+
+def shrink(env, src, release=False):
+    lines = src.splitlines()
+
+    def pred(ls):
+        recs = langrun.run_impl(env, "shr", [("s", "\n".join(ls) + "\n")], ["nn", "nf"], release=release, timeout=60)
+        r = recs.get("s")
+        return bool(r and r.get("accepted") and oracle(r))
+    if len(lines) > 60 or not pred(lines):
+        return src
+    return "\n".join(common.ddmin_lines(lines, pred, keep_head=0)) + "\n"
+
+
+def correspond(env, searching=False, model=True):
+    tier = env.tier
+    n_prog = 1000 if tier == "quick" else 30000
+    n_shape = 300 if tier == "quick" else 8000
+    if searching:
+        n_prog = int(n_prog * 1.5)
+    rng = env.rng
+    failures, disagreements, samples = [], [], []
+    extra = {"templates": {}, "endings": {}, "frontend_crashes": 0, "inconclusive": 0}
+    evaluations = 0
+    nontrivial = set()
+    counted = {"resets": 0, "returns": 0, "promotions": 0}
+    shrinks = [0]
+
+    def fail(key, src, observed, profile):
+        if any(f["key"] == key for f in failures):
+            return
+        failures.append({"key": key, "case": src, "observed": observed, "profile": profile})
+
+    profiles = [False] if tier == "quick" else [False, True]
+    if True in profiles:
+        ok, out = common.build_harness(release=True)
+        if not ok:
+            raise RuntimeError("release harness build failed: " + out[-1500:])
+
+    # ---------------- stream 1: corpus + generated programs, oracle on the implementation
+    cases = [("corpus%d" % i, src) for i, (_, src) in enumerate(CORPUS)]
+    corpus_key = {"corpus%d" % i: k for i, (k, _) in enumerate(CORPUS)}
+    while len(cases) < len(CORPUS) + n_prog:
+        src, st, tst = gen_program(rng, tier)
+        for k, v in tst.items():
+            extra["templates"][k] = extra["templates"].get(k, 0) + v
+        cases.append(("g%d" % len(cases), src))
+    shard = 2000
+    for release in profiles:
+        for s0 in range(0, len(cases), shard):
+            part = cases[s0:s0 + shard]
+            recs = langrun.run_impl(env, "p%d_%d" % (int(release), s0), part, langrun.CFGS, release=release, timeout=1500)
+            ok_cases = []
+            for cid, src in part:
+                r = recs.get(cid)
+                if not r:
+                    continue
+                if r.get("crash") and r["crash"][0] == "frontend":
+                    extra["frontend_crashes"] += 1
+                    continue
+                if not r.get("accepted"):
+                    continue
+                evaluations += 1
+                for c, (e, _) in r["runs"].items():
+                    k = langrun.ending_class(e)
+                    extra["endings"][k] = extra["endings"].get(k, 0) + 1
+                bad = oracle(r)
+                if bad:
+                    extra["oracle_failures_total"] = extra.get("oracle_failures_total", 0) + 1
+                    if cid in corpus_key:
+                        small, key = src, corpus_key[cid]
+                    elif shrinks[0] < 4:
+                        shrinks[0] += 1
+                        small = shrink(env, src, release)
+                        key = classify(small)
+                    elif len(failures) < 10:
+                        small, key = src, classify(src)
+                    else:
+                        continue
+                    fail(key, small, {"differs": bad[0][0], "detail": bad[0][1]}, "release" if release else "debug")
+                    continue
+                if any(langrun.ending_class(e) in ("panic", "crash") for e, _ in r["runs"].values()):
+                    extra["inconclusive"] += 1
+                    continue
+                ok_cases.append((cid, src))
+            if release:
+                continue
+            # ---- model tie (a): the framed configurations agree with Lang.run_impl (no reclamation)
+            if model and ok_cases:
+                mrecs = langrun.run_model(env, "m%d" % s0, recs, [c for c, _ in ok_cases])
+                for cid, src in ok_cases:
+                    st, detail = langcheck.compare(recs[cid], mrecs.get(cid), cfgs=("nf", "pf"))
+                    if st == "disagree" and len(disagreements) < 5:
+                        disagreements.append({"stream": "lang-model-vs-framed", "case": src, "detail": detail})
+            # ---- model tie (b): counters — did the run exercise reclamation at all?
+            ctr, rc = run_counters(env, "c%d" % s0, ok_cases, ("nf",))
+            for cid, src in ok_cases:
+                c = ctr.get(cid, {}).get("nf")
+                if not c:
+                    continue
+                counted["resets"] += c[0]
+                counted["returns"] += c[1]
+                counted["promotions"] += c[2]
+                nf = recs[cid]["runs"].get("nf")
+                if nf and (c[3], c[4]) != (langrun.ending_class(nf[0]), nf[1]) and len(disagreements) < 5:
+                    disagreements.append({"stream": "counters-run-vs-lang-run", "case": src, "detail": [c[3:], nf]})
+                if c[0] >= 1 and c[1] >= 1:
+                    nontrivial.add(common.chash(src))
+                    if len(samples) < 3 and len(src) < 700:
+                        samples.append({"program": src, "frame_resets": c[0], "pool_returns": c[1], "promotions": c[2],
+                                        "nf": recs[cid]["runs"]["nf"][1][:200]})
+
+    # ---------------- stream 2: shapes — implementation vs Mem.run vs Mem.arun
+    shape_stats = {"shapes": 0, "agree": 0, "variant_faults": {"alias": 0, "noparam": 0, "nostage": 0}, "ill": 0}
+    if model:
+        shapes = []
+        for name, (st, _) in sorted(WITNESS_SHAPES.items()):
+            src, ops = Shape().compile(st)
+            shapes.append(("w_" + name, src, ops))
+        for i in range(n_shape):
+            src, ops = Shape().compile(gen_shape(rng))
+            shapes.append(("s%d" % i, src, ops))
+        recs = langrun.run_impl(env, "shapes", [(c, s) for c, s, _ in shapes], ["nn", "nf"], timeout=1500)
+        mres = run_mem_model(env, "shapes", [(c, o) for c, _, o in shapes])
+        for cid, src, ops in shapes:
+            r, m = recs.get(cid), mres.get(cid)
+            if not r or not r.get("accepted") or not m:
+                if r and r.get("accepted") is False and len(disagreements) < 5:
+                    disagreements.append({"stream": "shape-rejected", "case": src, "detail": r["diags"][:2]})
+                continue
+            shape_stats["shapes"] += 1
+            evaluations += 1
+            bad = oracle(r)
+            if bad:
+                fail(classify(src), src, {"differs": bad[0][0], "detail": bad[0][1]}, "debug")
+                continue
+            nf = r["runs"].get("nf", ("missing", ""))
+            rep = m["mem"].get("repaired", ("missing", ""))
+            ref = m["ref"] or ("missing", "")
+            if rep[0] == "ill" or ref[0] == "ill":
+                shape_stats["ill"] += 1
+                if langrun.ending_class(nf[0]) == "ok" and len(disagreements) < 5:
+                    disagreements.append({"stream": "shape-trace-ill-formed", "case": src, "ops": ops[:80], "detail": [rep, ref]})
+                continue
+            if langrun.ending_class(nf[0]) != "ok":
+                continue
+            if not (rep[0] == "ok" and ref[0] == "ok" and rep[1] == ref[1] == nf[1]):
+                if len(disagreements) < 5:
+                    disagreements.append({"stream": "mem-model-vs-framed", "case": src, "detail": {"impl_nf": nf, "mem": rep, "ref": ref}})
+                continue
+            shape_stats["agree"] += 1
+            for v in ("alias", "noparam", "nostage"):
+                mv = m["mem"].get(v, ("missing", ""))
+                if mv[0] != "ok" or mv[1] != ref[1]:
+                    shape_stats["variant_faults"][v] += 1
+            if cid.startswith("w_"):
+                want = WITNESS_SHAPES[cid[2:]][1]
+                mv = m["mem"].get(want, ("missing", ""))
+                if mv[0] == "ok" and mv[1] == ref[1] and len(disagreements) < 5:
+                    disagreements.append({"stream": "mem-model-blind-to-witness", "case": src, "detail": {want: mv}})
+
+    extra["reclamation_counters_total"] = counted
+    extra["shape_stream"] = shape_stats
+    extra["profiles"] = ["debug"] + (["release"] if True in profiles else [])
+    return {
+        "evaluations": evaluations,
+        "distinct_nontrivial": len(nontrivial),
+        "rule": "oracle: nf==nn and pf==pn (values + ending; debug build with 0xDD poisoning, thorough also release) on the fixed "
+                "corpus and on generated programs biased as in DESIGN §6 C02; non-trivial = distinct accepted program whose nf run "
+                "performed >= 1 frame reset AND >= 1 pool-slot return (guarded counters); model ties: nf/pf vs extracted "
+                "Lang.run_impl, and statically-controlled shapes compiled to op sequences: implementation nf output == "
+                "Mem.run(repaired) output == Mem.arun output, witnesses must fault under the shipped-variant configurations",
+        "samples": samples,
+        "failures": failures,
+        "disagreements": disagreements,
+        "extra": extra,
+    }
+
+
+def replay(env, payload):
+    common.refresh_tables()
+    case = payload.get("case") or {}
+    src = case.get("case") if isinstance(case, dict) else None
+    if not src:
+        d = (payload.get("disagreements") or [{}])[0]
+        src = d.get("case")
+    if not src:
+        print("replay: no concrete program in this file (obligations: %s)" % payload.get("no_longer_checks"))
+        return 1
+    release = isinstance(case, dict) and case.get("profile") == "release"
+    if release:
+        common.build_harness(release=True)
+    recs = langrun.run_impl(env, "replay", [("r", src)], langrun.CFGS, release=release, timeout=120)
+    r = recs.get("r")
+    if not r or not r.get("accepted"):
+        print("replay: program not accepted any more")
+        return 1
+    for c in langrun.CFGS:
+        if c in r["runs"]:
+            print("%s: %s | %s" % (c, langrun.panic_text(r["runs"][c][0])[:200], r["runs"][c][1][:400]))
+    bad = oracle(r)
+    print("replay: %s" % ("still failing (%s differs)" % bad[0][0] if bad else "passes now"))
+    return 1 if bad else 0
